@@ -31,6 +31,24 @@ fn near(rng: &mut Rng, base: u64) -> u64 {
     }
 }
 
+/// send a request through the real protocol handler instead of the channel entry point (same model request)
+fn handlerize(rng: &mut Rng, op: String) -> String {
+    let t: Vec<&str> = op.split_whitespace().collect();
+    match t.first().copied() {
+        Some("signholder") if rng.chance(1, 2) =>
+            if rng.chance(1, 2) { format!("hsignholder {} {}", rng.range(4, 6), t[1]) } else { format!("hsigncommit {} {}", rng.range(4, 6), t[1]) },
+        Some("revokecp") if rng.chance(1, 3) => format!("h{}", op),
+        Some("signcp") if rng.chance(1, 4) => format!("h{}", op),
+        Some("mutualclose") if rng.chance(1, 2) => format!("h{}", op),
+        Some("validate") if t.len() >= 7 && rng.chance(1, 6) => format!("hvalidate1 {} {} {} {} {} {}", rng.range(4, 6), t[1], t[2], t[3], t[4], t[6]),
+        Some("getpoint") if rng.chance(1, 3) => {
+            let n: u64 = t[1].parse().unwrap_or(0);
+            format!("hcheckfuture {} {}", if rng.chance(1, 12) { 1u64 << 48 } else { n.min(64) }, rng.below(2))
+        }
+        _ => op,
+    }
+}
+
 impl EnfGroup {
     fn weights(&self) -> Vec<(&'static str, u64)> {
         // (op kind, weight)
@@ -201,12 +219,25 @@ impl Group for EnfGroup {
          validate (phase 1/2; 10 contents: 0..5 HTLCs and a policy-violating one; signature lists: genuine, wrong commitment sig, first/middle/last HTLC sig wrong, empty, n-1, n+1, swapped), \
          revoke, activate, get point/secret/secret-or-none, sign holder (phase2/recovery/redundant), mutual close, sign \
          counterparty commitment (phase 1/2, seeded/unrelated/changed points), counterparty revocation (right/stale/future/\
-         unrelated secrets), handler composites ValidateCommitmentTx2/RevokeCommitmentTx/GetPerCommitmentPoint(2) at protocol \
-         versions 4..6, restart = Node::restore_node; numbers in {counter-2..counter+2} and u64 extremes; non-trivial = \
+         unrelated secrets), real handler arms ValidateCommitmentTx(2), RevokeCommitmentTx, GetPerCommitmentPoint(2), SignLocalCommitmentTx2, SignCommitmentTx, \
+         ValidateRevocation, SignRemoteCommitmentTx2, SignMutualCloseTx2, CheckFutureSecret at protocol versions 4..6, restart = Node::restore_node; numbers in {counter-2..counter+2} and u64 extremes; non-trivial = \
          at least one accepted state-changing request and at least one refusal"
     }
     fn budget(&self, tier: Tier) -> usize {
         if tier == Tier::Quick { 220 } else { 4000 }
+    }
+    /// handler-arm requests are the same model requests as their channel entry points
+    fn model_line(&self, op: &str) -> Option<String> {
+        let t: Vec<&str> = op.split_whitespace().collect();
+        match t.first().copied() {
+            Some("hsignholder") | Some("hsigncommit") => Some(format!("signholder {}", t[2])),
+            Some("hrevokecp") => Some(format!("revokecp {}", t[1..].join(" "))),
+            Some("hsigncp") => Some(format!("signcp {}", t[1..].join(" "))),
+            Some("hmutualclose") => Some(format!("mutualclose {}", t[1..].join(" "))),
+            Some("hvalidate1") => Some(format!("hvalidate {}", t[1..].join(" "))),
+            Some("hcheckfuture") => None,
+            _ => Some(op.to_string()),
+        }
     }
     fn corpus(&self) -> Vec<Vec<String>> {
         let f = |s: &str| -> Vec<String> { s.split('|').map(|x| x.trim().to_string()).collect() };
@@ -219,6 +250,8 @@ impl Group for EnfGroup {
             // (first/middle/last), swapped, surplus; none of the defective ones opens the way to secret 0
             f("setup|validate 0 0 1 1 2|activate|validate 1 8 2 1 2 5|restart|revoke 1|validate 1 8 2 1 1 6|restart|revoke 1|hvalidate 4 1 8 2 1 5|restart|getsecret 0|validate 1 8 0 1 2 2|validate 1 8 0 1 1 3|validate 1 8 0 1 2 4|validate 1 8 0 1 2 8|revoke 1|hvalidate 6 1 4 2 1 5|restart|revoke 1|validate 1 8 1 1 2 7|revoke 1|validate 2 4 0 1 2 0|validate 2 4 1 1 1 1|hrevoke 6 1|validate 3 6 1 1 2 1|revoke 3|validate 3 6 1 1 2 1|validate 0 5 1 0 2 1"),
             f("setup|hvalidate 5 0 0 1 1 1|hvalidate 5 1 6 2 1 6|restart|hrevoke 5 0|hvalidate 5 1 6 0 1 8|hrevoke 5 0|hvalidate 5 1 6 1 1 1|hrevoke 5 0|hvalidate 4 2 5 2 1 5|restart|hvalidate 4 2 5 1 1 7|hgetpoint 4 3"),
+            // every handler arm that touches the enforcement state, through the real handler
+            f("hcheckfuture 0 0|setup|hvalidate1 6 0 0 1 1 1|hsigncp 0 1000 0 1 2|hvalidate1 6 1 5 1 1 1|hcheckfuture 0 0|hcheckfuture 0 1|hrevoke 6 0|hcheckfuture 1 0|hsigncp 1 1004 1 1 2|hsigncp 1 1005 1 1 2|hmutualclose 0 2 1|hvalidate1 4 2 0 1 1 1|hmutualclose 0 2 0|hsignholder 6 1|hsigncommit 6 2|hmutualclose 1 2 1|hsignholder 5 2|hrevoke 6 1|hvalidate1 5 3 6 2 1 5"),
             // F1 witness (fixed by 208b946): validate n+1, sign n, revoke n
             f("setup|validate 0 0 1 1 2|activate|validate 1 1 1 1 2|signholder 0|revoke 1|getsecret 0|restart|revoke 1|hrevoke 6 0"),
             // invalid signatures never open the way to a secret
@@ -304,7 +337,8 @@ impl Group for EnfGroup {
                     format!("validate {} {} 1 1 {} 1", nn, c, rng.range(1, 2))
                 }
             } else {
-                self.gen_op(rng, &w)
+                let op = self.gen_op(rng, &w);
+                handlerize(rng, op)
             };
             w.apply(&op);
             ops.push(op);
